@@ -24,7 +24,7 @@ import (
 func init() {
 	Registry["C11"] = &Check{
 		Scenarios: c11Scenarios,
-		Rule: "every CER over Origin-Host {absent, present} x Origin-Realm {absent, present} x Inband-Security-Id {absent, 0, 1} x every sequence (so every order) of <=2 (thorough 3) application AVPs over 18 atoms: Acct-Application-Id {3 supported, 4 wrong type, 999 unsupported, relay}, Auth-Application-Id {4, 3 wrong type, 999, relay}, Vendor-Specific-Application-Id groups {[Vendor-Id, Auth 4], [Auth 999, Vendor-Id], [Vendor-Id, Auth 999], [Vendor-Id, Acct 3], [Vendor-Id], [Auth 16777251], [Acct 999], [Auth 4, Auth 999], [Auth 999, Auth 4], []}; settings with and without configured HostIPAddresses; local endpoint 10.1.2.3 and loopback; hop-by-hop / end-to-end ids rotate over {0,1,2^31,2^32-1}. Each CER is sent end-to-end to sm.New on a real connection over the in-memory transport, followed by an RAR whose gated handler reads the connection metadata. One deterministic schedule per CER (the quantifier is over inputs).",
+		Rule: "every CER over Origin-Host {absent, present} x Origin-Realm {absent, present} x Inband-Security-Id {absent, 0, 1} x every sequence (so every order) of <=2 (thorough 3) application AVPs over 18 atoms: Acct-Application-Id {3 supported, 4 wrong type, 999 unsupported, relay}, Auth-Application-Id {4, 3 wrong type, 999, relay}, Vendor-Specific-Application-Id groups {[Vendor-Id, Auth 4], [Auth 999, Vendor-Id], [Vendor-Id, Auth 999], [Vendor-Id, Acct 3], [Vendor-Id], [Auth 16777251], [Acct 999], [Auth 4, Auth 999], [Auth 999, Auth 4], []}; settings with and without configured HostIPAddresses; local endpoint 10.1.2.3 and loopback; hop-by-hop / end-to-end ids rotate over {0,1,2^31,2^32-1}. Each CER is sent end-to-end, on a connection of its own, to ONE state machine per scenario (so a verdict that depends on earlier CERs is caught; the visiting order alternates rich and poor CERs) over the in-memory transport, followed by an RAR whose gated handler reads the connection metadata. One deterministic schedule per CER (the quantifier is over inputs).",
 		Assume: []string{"reference acceptance predicate written from the statement, with application support read from the independent refdict model of the embedded XML", "single default schedule per input"},
 		QuickBudget: 120, ThoroughBudget: 1800,
 	}
@@ -123,7 +123,30 @@ func c11Run(r *SeqResult, host, realm bool, inband int, cfgIP, loop bool, maxN i
 	}
 	rec(nil)
 	ids := []uint32{0, 1, 0x80000000, 0xffffffff}
-	for qi, sq := range seqs {
+	// ONE state machine serves every CER of this scenario, each on a connection of its own: the
+	// verdict on a CER must not depend on the CERs the state machine has seen before.
+	settings := &sm.Settings{OriginHost: "srv.local", OriginRealm: "local", VendorID: 99, ProductName: "prod"}
+	if cfgIP {
+		settings.HostIPAddresses = []datatype.Address{datatype.Address(net.ParseIP("192.0.2.7")), datatype.Address(net.ParseIP("192.0.2.8"))}
+	}
+	mach := sm.New(settings)
+	var curMeta **smpeer.Metadata
+	var curSeen *bool
+	mach.HandleFunc("RAR", func(c diam.Conn, m *diam.Message) {
+		*curSeen = true
+		*curMeta, _ = smpeer.FromContext(c.Context())
+	})
+	// the enumeration is visited in an order that alternates rich and poor CERs, so that state
+	// carried over from one CER to the next would change a verdict
+	order := make([]int, 0, len(seqs))
+	for i := 0; i < (len(seqs)+1)/2; i++ {
+		order = append(order, i)
+		if j := len(seqs) - 1 - i; j > i {
+			order = append(order, j)
+		}
+	}
+	for _, qi := range order {
+		sq := seqs[qi]
 		hbh, ee := ids[qi%4], ids[(qi/4)%4]
 		var avps []refcodec.Node
 		if host {
@@ -159,15 +182,7 @@ func c11Run(r *SeqResult, host, realm bool, inband int, cfgIP, loop bool, maxN i
 			if loop {
 				conn.Local = vnet.Addr{S: "127.0.0.1:3868"}
 			}
-			settings := &sm.Settings{OriginHost: "srv.local", OriginRealm: "local", VendorID: 99, ProductName: "prod"}
-			if cfgIP {
-				settings.HostIPAddresses = []datatype.Address{datatype.Address(net.ParseIP("192.0.2.7")), datatype.Address(net.ParseIP("192.0.2.8"))}
-			}
-			mach := sm.New(settings)
-			mach.HandleFunc("RAR", func(c diam.Conn, m *diam.Message) {
-				metaSeen = true
-				meta, _ = smpeer.FromContext(c.Context())
-			})
+			curMeta, curSeen = &meta, &metaSeen
 			if _, err := diam.NewConn(conn, "peer", mach, dict.Default); err != nil {
 				return
 			}
